@@ -26,7 +26,8 @@ PROPS = {
         "gen": [],
         "trusted_base": COMMON_TB + [
             "modelled, not verified: std `str::lines`, `split_once`, `split`, `trim` (`trim_matches` slice offsets), `starts_with`/`ends_with`, slicing, `HashSet`/`HashMap` get/insert; re-implemented over List Char in lean/CookModel/Side/Aisle.lean and tied to std by the exhaustive + random correspondence run",
-            "the explicit Unicode White_Space table of the model is compared with `char::is_whitespace` over all scalar values in every run (op ws_table)"],
+            "the explicit Unicode White_Space table of the model is compared with `char::is_whitespace` over all scalar values in every run (op ws_table)",
+            "modelled, not verified: std `Write::write_fmt` / `Write::write_all` (every formatted piece is handed to `write_all`, which calls `write` until the piece is consumed, `Ok(0)` = `Err(WriteZero)`; lean/CookModel/Side/AisleSink.lean) and the UTF-8 encoding of a text (`String.utf8EncodeChar`); tied by op aisle_sink: what a destination accepting n bytes per call / cap bytes in all holds after `aisle::write`, and Ok / WriteZero, compared on every parsed file with four (n, cap) shapes"],
         "assumptions": ["text is a sequence of Unicode scalar values (Rust `&str`); byte offsets are sums of UTF-8 lengths",
                         "`AisleConf` equality is taken on freshly parsed configurations (the private `len` cache cell is 0); `ingredients_info` is the lookup"],
     },
